@@ -154,7 +154,7 @@ fn judge(c: &Case, w: &World, ended: bool) -> Result<Facts, Failure> {
             let Some(sl) = w.slots.get(t) else { return Err(viol("unknown-frame", format!("tag {t}"))) };
             let kind_ok = match (&wp.pkt, sl.kind) {
                 (P5::Publish(p), SendKind::Qos0) => p.qos == 0,
-                (P5::Publish(p), SendKind::Qos1) => p.qos == 1,
+                (P5::Publish(p), SendKind::Qos1 | SendKind::NoBlock) => p.qos == 1,
                 (P5::Publish(p), SendKind::Qos2) => p.qos == 2,
                 (P5::Subscribe(_), SendKind::Subscribe) | (P5::Unsubscribe(_), SendKind::Unsubscribe) => true,
                 _ => false,
@@ -266,8 +266,8 @@ pub async fn run_case(c: Case) -> Result<CaseInfo, Failure> {
 }
 
 pub fn op_strategy() -> BoxedStrategy<Op> {
-    let kind = prop_oneof![3 => Just(SendKind::Qos0), 3 => Just(SendKind::Qos1), 2 => Just(SendKind::Qos2), 1 => Just(SendKind::Subscribe), 1 => Just(SendKind::Unsubscribe)];
-    let kind2 = prop_oneof![2 => Just(SendKind::Qos0), 2 => Just(SendKind::Qos1), 1 => Just(SendKind::Qos2), 1 => Just(SendKind::Subscribe), 1 => Just(SendKind::Unsubscribe)];
+    let kind = prop_oneof![3 => Just(SendKind::Qos0), 3 => Just(SendKind::Qos1), 2 => Just(SendKind::Qos2), 1 => Just(SendKind::Subscribe), 1 => Just(SendKind::Unsubscribe), 2 => Just(SendKind::NoBlock)];
+    let kind2 = prop_oneof![2 => Just(SendKind::Qos0), 2 => Just(SendKind::Qos1), 1 => Just(SendKind::Qos2), 1 => Just(SendKind::Subscribe), 1 => Just(SendKind::Unsubscribe), 1 => Just(SendKind::NoBlock)];
     prop_oneof![
         6 => (kind, prop_oneof![6 => Just(0u8), 1 => 1u8..3]).prop_map(|(kind, own_id)| Op::Send { kind, again: false, own_id }),
         2 => (kind2, 0u8..3).prop_map(|(kind, how)| Op::SendBad { kind, how }),
